@@ -200,10 +200,33 @@ def build_av(case):
     return av
 
 
-def model_expression(case, model, choice, log=False, shift=None, tuple_syntax=False, mu_override=None):
-    """The library's expression for P(choice) (or its logarithm) under `model`."""
+def model_expression(case, model, choice, log=False, shift=None, tuple_syntax=False, mu_override=None, objects=None):
+    """The library's expression for P(choice) (or its logarithm) under `model`.
+
+    `objects`: a dictionary kept by the caller; when given, the utilities, availabilities, nests and generating terms are
+    built ONCE and the same Python objects are handed to every call (what a user script does)."""
     import biogeme.models as models
 
+    if objects is not None:
+        key = ('shift' if shift is not None else 'plain', tuple_syntax)
+        if key not in objects:
+            objects[key] = dict(util=build_utils(case, shift), av=build_av(case),
+                                nests=(build_nests(case, 'cnl' if model.startswith('cnl') else 'nested', tuple_syntax)
+                                       if model not in ('logit', 'mev') else None),
+                                log_gi=({a: build.Builder([]).build(s_) for a, s_ in case['log_gi']} if model == 'mev' else None))
+        o = objects[key]
+        mu = mu_override if mu_override is not None else (_val(case['mu']) if case.get('mu') is not None else None)
+        if model == 'logit':
+            return (models.loglogit if log else models.logit)(o['util'], o['av'], choice)
+        if model == 'nested':
+            return (models.lognested if log else models.nested)(o['util'], o['av'], o['nests'], choice)
+        if model == 'nested_mu':
+            return (models.lognested_mev_mu if log else models.nested_mev_mu)(o['util'], o['av'], o['nests'], choice, mu)
+        if model == 'cnl':
+            return (models.logcnl if log else models.cnl)(o['util'], o['av'], o['nests'], choice)
+        if model == 'cnlmu':
+            return (models.logcnlmu if log else models.cnlmu)(o['util'], o['av'], o['nests'], choice, mu)
+        return (models.logmev if log else models.mev)(o['util'], o['log_gi'], o['av'], choice)
     util = build_utils(case, shift)
     av = build_av(case)
     mu = mu_override if mu_override is not None else (_val(case['mu']) if case.get('mu') is not None else None)
